@@ -590,6 +590,11 @@ func (s *Store) CreateDB(name string) (db *DB, f *os.File, err error) {
 
 // CreateDBIfNotExists creates an empty database with the given name.
 func (s *Store) CreateDBIfNotExists(name string) (*DB, error) {
+	// A database lives in a directory of its own name directly under "dbs".
+	if name == "" || name == "." || name == ".." || strings.ContainsRune(name, '/') {
+		return nil, fmt.Errorf("invalid database name: %q", name)
+	}
+
 	s.mu.Lock()
 	defer s.mu.Unlock()
 
